@@ -47,10 +47,16 @@ Definition tol_std (xs : list Q) (v : Q) : Q := tol_var xs v + 8 * ulp53 * v.
 (* slice functions and unweighted Sample methods; st: 0 returned, 2 panicked *)
 Definition mean_ok (xs : list Q) (st : Z) (o : xreal) : Prop :=
   st = 0%Z /\ match xs with [] => o = XNaN | _ => obs_near (tol_mean xs) (mean_def xs) o end.
+(* Welford's M2 = variance * (n - 1), a sum of non-negative terms, exceeds MaxFloat64 (maxf): +Inf in float64 *)
+Definition m2_spec (xs : list Q) : Q := var_spec xs * Qofnat (length xs - 1).
 Definition var_ok (xs : list Q) (st : Z) (o : xreal) : Prop :=
-  st = 0%Z /\ match xs with [] => o = XNaN | _ => obs_near (tol_var xs (var_spec xs)) (var_spec xs) o end.
+  st = 0%Z /\ match xs with [] => o = XNaN
+              | _ => (maxf < m2_spec xs -> o = XInf false) /\
+                     (m2_spec xs <= maxf -> obs_near (tol_var xs (var_spec xs)) (var_spec xs) o) end.
 Definition std_ok (xs : list Q) (st : Z) (o : xreal) : Prop :=
-  st = 0%Z /\ match xs with [] => o = XNaN | _ => obs_sqrt (tol_std xs (var_spec xs)) (var_spec xs) o end.
+  st = 0%Z /\ match xs with [] => o = XNaN
+              | _ => (maxf < m2_spec xs -> o = XInf false) /\
+                     (m2_spec xs <= maxf -> obs_sqrt (tol_std xs (var_spec xs)) (var_spec xs) o) end.
 (* Bounds of the values l: (NaN, NaN) when there is none, else (least, greatest) exactly *)
 Definition bounds_ok (l : list Q) (omin omax : xreal) : Prop :=
   match l with
@@ -83,10 +89,15 @@ Definition sstd_ok (xs : list Q) (ws : option (list Q)) (st : Z) (o : xreal) : P
   | Some _ => match xs with [] => st = 0%Z /\ o = XNaN | _ => st = 2%Z end
   end.
 Definition wterms (xs w : list Q) : list Q := map (fun p => fst p * snd p) (combine xs w).
+(* a sum accumulated from the left: +-Inf as soon as an exact prefix sum exceeds MaxFloat64 in magnitude
+   (first_overflow terms 0 = Some sign, Check/C09.v), else within tol_sum of the exact sum *)
+Definition sum_ok (terms : list Q) (v : Q) (o : xreal) : Prop :=
+  (forall neg, first_overflow terms 0 = Some neg -> o = XInf neg) /\
+  (first_overflow terms 0 = None -> obs_near (tol_sum terms) v o).
 Definition ssum_ok (xs : list Q) (ws : option (list Q)) (o : xreal) : Prop :=
   match ws with
-  | None => obs_near (tol_sum xs) (Qsum xs) o
-  | Some w => obs_near (tol_sum (wterms xs w)) (wsum_xw (combine xs w)) o
+  | None => sum_ok xs (Qsum xs) o
+  | Some w => sum_ok (wterms xs w) (wsum_xw (combine xs w)) o
   end.
 Definition sweight_ok (xs : list Q) (ws : option (list Q)) (o : xreal) : Prop :=
   match ws with
@@ -183,22 +194,44 @@ Proof.
     exists v. split; [exact V|]. rewrite Ev, E. reflexivity.
 Qed.
 
-Lemma variance_sound xs st o : f_close (tol_var xs (var_val (variance xs))) (variance xs) st o = true -> var_ok xs st o.
+Lemma sum_close_sound terms v v' o : v == v' -> sum_close terms (tol_sum terms) v o = true -> sum_ok terms v' o.
 Proof.
-  intro H. apply f_close_sound in H. pose proof (variance_value xs) as V. unfold var_ok. destruct xs as [|x t] eqn:E.
-  - rewrite V in H. exact H.
-  - rewrite <- E in *. destruct V as (v & V & Ev). rewrite V in H. cbn [var_val] in H. destruct H as [S N].
-    split; [exact S|]. eapply obs_near_eq; [exact Ev | apply tol_var_eq; exact Ev | exact N].
+  intros E H. unfold sum_close in H. unfold sum_ok. destruct (first_overflow terms 0) as [neg|].
+  - split; [intros n' En; injection En as <-; apply xeq_inf; exact H | discriminate].
+  - split; [discriminate|]. intros _. apply xwithin_fin in H. eapply obs_near_eq; [exact E | reflexivity | exact H].
+Qed.
+
+Lemma m2_overflows_iff xs v : v == var_spec xs -> (m2_overflows xs (FVal v) = true <-> maxf < m2_spec xs).
+Proof. intro E. unfold m2_overflows, m2_spec. rewrite CheckBase.Qltb_true, E. reflexivity. Qed.
+
+Lemma variance_sound xs st o : var_close xs (tol_var xs (var_val (variance xs))) (variance xs) st o = true -> var_ok xs st o.
+Proof.
+  intro H. unfold var_close in H. pose proof (variance_value xs) as V. unfold var_ok. destruct xs as [|x t] eqn:E.
+  - rewrite V in H. cbn [m2_overflows] in H. apply f_close_sound in H. exact H.
+  - rewrite <- E in *. destruct V as (v & V & Ev). rewrite V in H. cbn [var_val] in H.
+    pose proof (m2_overflows_iff xs v Ev) as MI.
+    destruct (m2_overflows xs (FVal v)) eqn:M.
+    + breflect. split; [assumption|]. split; [intros _; apply xeq_inf; assumption|].
+      intro L. exfalso. pose proof (proj1 MI eq_refl). lra.
+    + apply f_close_sound in H. destruct H as [S N]. split; [exact S|]. split.
+      * intro L. apply MI in L. congruence.
+      * intros _. eapply obs_near_eq; [exact Ev | apply tol_var_eq; exact Ev | exact N].
 Qed.
 
 Lemma stddev_sound xs st o :
-  f_close_sqrt (tol_var xs (var_val (variance xs)) + 8 * ulp53 * var_val (variance xs)) (variance xs) st o = true ->
+  std_close xs (tol_var xs (var_val (variance xs)) + 8 * ulp53 * var_val (variance xs)) (variance xs) st o = true ->
   std_ok xs st o.
 Proof.
-  intro H. apply f_close_sqrt_sound in H. pose proof (variance_value xs) as V. unfold std_ok. destruct xs as [|x t] eqn:E.
-  - rewrite V in H. exact H.
-  - rewrite <- E in *. destruct V as (v & V & Ev). rewrite V in H. cbn [var_val] in H. destruct H as [S N].
-    split; [exact S|]. eapply obs_sqrt_eq; [exact Ev | apply (tol_std_eq xs v _ Ev) | exact N].
+  intro H. unfold std_close in H. pose proof (variance_value xs) as V. unfold std_ok. destruct xs as [|x t] eqn:E.
+  - rewrite V in H. cbn [m2_overflows] in H. apply f_close_sqrt_sound in H. exact H.
+  - rewrite <- E in *. destruct V as (v & V & Ev). rewrite V in H. cbn [var_val] in H.
+    pose proof (m2_overflows_iff xs v Ev) as MI.
+    destruct (m2_overflows xs (FVal v)) eqn:M.
+    + breflect. split; [assumption|]. split; [intros _; apply xeq_inf; assumption|].
+      intro L. exfalso. pose proof (proj1 MI eq_refl). lra.
+    + apply f_close_sqrt_sound in H. destruct H as [S N]. split; [exact S|]. split.
+      * intro L. apply MI in L. congruence.
+      * intros _. eapply obs_sqrt_eq; [exact Ev | apply (tol_std_eq xs v _ Ev) | exact N].
 Qed.
 
 Lemma bounds_sound l omin omax : b_eq (bounds l) omin omax = true -> bounds_ok l omin omax.
@@ -266,39 +299,45 @@ Proof. unfold sample_variance. cbn [s_xs s_ws]. destruct xs; reflexivity. Qed.
 Lemma sample_variance_w xs w sorted : sample_variance (mkSample xs (Some w) sorted) = match xs with [] => FNaN | _ => FPanic end.
 Proof. unfold sample_variance. cbn [s_xs s_ws]. destruct xs; reflexivity. Qed.
 
+Lemma var_close_panic xs tol st o : var_close xs tol FPanic st o = f_close tol FPanic st o.
+Proof. reflexivity. Qed.
+Lemma var_close_nan xs tol st o : var_close xs tol FNaN st o = f_close tol FNaN st o.
+Proof. reflexivity. Qed.
+
 Lemma svar_sound xs ws sorted st o :
-  f_close (tol_var xs (var_val (match ws with None => variance xs | Some _ => sample_variance (mkSample xs ws sorted) end)))
+  var_close xs (tol_var xs (var_val (match ws with None => variance xs | Some _ => sample_variance (mkSample xs ws sorted) end)))
           (sample_variance (mkSample xs ws sorted)) st o = true -> svar_ok xs ws st o.
 Proof.
   intro H. unfold svar_ok. destruct ws as [w|].
-  - rewrite sample_variance_w in H. apply f_close_sound in H. destruct xs; exact H.
+  - rewrite sample_variance_w in H. destruct xs; cbn [var_close m2_overflows] in H; apply f_close_sound in H; exact H.
   - rewrite sample_variance_unw in H. apply variance_sound. exact H.
 Qed.
 
 (* in check_stats the tolerance of the Sample methods is computed from the slice variance *)
 Lemma svar_sound_stats xs ws sorted st o :
-  f_close (tol_var xs (var_val (variance xs))) (sample_variance (mkSample xs ws sorted)) st o = true -> svar_ok xs ws st o.
+  var_close xs (tol_var xs (var_val (variance xs))) (sample_variance (mkSample xs ws sorted)) st o = true -> svar_ok xs ws st o.
 Proof.
   intro H. unfold svar_ok. destruct ws as [w|].
-  - rewrite sample_variance_w in H. apply f_close_sound in H. destruct xs; exact H.
+  - rewrite sample_variance_w in H. destruct xs; cbn [var_close m2_overflows] in H; apply f_close_sound in H; exact H.
   - rewrite sample_variance_unw in H. apply variance_sound. exact H.
 Qed.
 Lemma sstd_sound_stats xs ws sorted st o :
-  f_close_sqrt (tol_var xs (var_val (variance xs)) + 8 * ulp53 * var_val (variance xs))
+  std_close xs (tol_var xs (var_val (variance xs)) + 8 * ulp53 * var_val (variance xs))
                (sample_variance (mkSample xs ws sorted)) st o = true -> sstd_ok xs ws st o.
 Proof.
   intro H. unfold sstd_ok. destruct ws as [w|].
-  - rewrite sample_variance_w in H. apply f_close_sqrt_sound in H. destruct xs; exact H.
+  - rewrite sample_variance_w in H. destruct xs; cbn [std_close m2_overflows] in H; apply f_close_sqrt_sound in H; exact H.
   - rewrite sample_variance_unw in H. apply stddev_sound. exact H.
 Qed.
 
 Lemma ssum_sound xs ws sorted o :
-  xwithin (tol_sum (match ws with Some w => wterms xs w | None => xs end)) (XFin (sample_sum (mkSample xs ws sorted))) o = true ->
+  sum_close (match ws with Some w => wterms xs w | None => xs end)
+            (tol_sum (match ws with Some w => wterms xs w | None => xs end)) (sample_sum (mkSample xs ws sorted)) o = true ->
   ssum_ok xs ws o.
 Proof.
-  intro H. apply xwithin_fin in H. unfold ssum_ok. destruct ws as [w|].
-  - eapply obs_near_eq; [apply sample_sum_weighted | reflexivity | exact H].
-  - eapply obs_near_eq; [|reflexivity | exact H]. unfold sample_sum. cbn [s_ws s_xs]. apply vsum_eq.
+  intro H. unfold ssum_ok. destruct ws as [w|].
+  - eapply sum_close_sound; [apply sample_sum_weighted | exact H].
+  - eapply sum_close_sound; [|exact H]. unfold sample_sum. cbn [s_ws s_xs]. apply vsum_eq.
 Qed.
 
 Lemma sweight_sound xs ws sorted o :
@@ -1031,7 +1070,7 @@ Definition vec_ok (v : vcase) : Prop :=
   | VLin lo hi num res => lin_ok lo hi num res
   | VLog lo hi num base res =>      (* not interpreted: partial *)
       pows_ok base (logspace_exponents lo hi num) res = true /\ geo_prog res = true
-  | VSum xs r => obs_near (tol_sum xs) (Qsum xs) r
+  | VSum xs r => sum_ok xs (Qsum xs) r
   | VMap fid xs r1 r2 u =>
       Forall2 Qeq (map (vec_fun fid) xs) r1 /\ Forall2 Qeq (map (vec_fun fid) xs) r2 /\ u = 1%Z   (* input unmodified *)
   | VConcat xss r u => Forall2 Qeq (concat xss) r /\ u = 1%Z
@@ -1060,7 +1099,7 @@ Proof.
     injection H as H _.
   - apply lin_sound. exact H.
   - breflect. split; assumption.
-  - apply xwithin_fin in H. eapply obs_near_eq; [apply vsum_eq | reflexivity | exact H].
+  - eapply sum_close_sound; [apply vsum_eq | exact H].
   - breflect. unfold vectorize, vmap in *. repeat split; [apply list_Qeq_sound | apply list_Qeq_sound |]; assumption.
   - breflect. unfold vconcat in *. split; [apply list_Qeq_sound|]; assumption.
 Qed.
